@@ -10,3 +10,4 @@ pub mod sgen;
 static GLOBAL: rec::Rec = rec::Rec;
 pub mod sizes;
 pub mod collx;
+pub mod apitrace;
